@@ -177,8 +177,15 @@ class OrderedSet(AbstractSet[T]):
                 continue
             self._data.append(item)
 
+    # Equality is order-sensitive: the order is rendered, and these sets are part of
+    # lru_cache keys, so two sets may only be interchangeable if they render the same.
+    def __eq__(self, other: object) -> bool:
+        if not isinstance(other, OrderedSet):
+            return NotImplemented
+        return self._data == other._data
+
     def __hash__(self) -> int:
-        return self._hash()
+        return hash(tuple(self._data))
 
     def __contains__(self, obj: object) -> bool:
         return obj in self._data
